@@ -28,9 +28,10 @@ import (
 )
 
 type world struct {
-	seed   int64
-	st, fs *harness.MemStore
-	n1, n2 *harness.Enrolled
+	nodeOpt []nodeenrollment.Option // node-side options in histories (storage wrapper on/off)
+	seed    int64
+	st, fs  *harness.MemStore
+	n1, n2  *harness.Enrolled
 }
 
 // rogue and honest dials happen 8 days after enrollment, when both of the
@@ -316,7 +317,7 @@ func (w *world) hKey(h hstate) string {
 			p = append(p, fmt.Sprintf("root[%s](%v..%v)", harness.CaKeyId(r.CertificateDer)[:6], r.NotBefore.AsTime().Sub(h.now), r.NotAfter.AsTime().Sub(h.now)))
 		}
 	}
-	c, err := types.LoadNodeCredentials(harness.Ctx, h.nd.Clone(), nodeenrollment.CurrentId)
+	c, err := types.LoadNodeCredentials(harness.Ctx, h.nd.Clone(), nodeenrollment.CurrentId, w.nodeOpt...)
 	if err == nil {
 		for _, b := range c.CertificateBundles {
 			p = append(p, fmt.Sprintf("chain[%s](%v..%v)", harness.CaKeyId(b.CaCertificateDer)[:6], b.CertificateNotBefore.AsTime().Sub(h.now), b.CertificateNotAfter.AsTime().Sub(h.now)))
@@ -331,7 +332,7 @@ func (w *world) hKey(h hstate) string {
 // holds (current or next) and which is valid now.
 func (w *world) expectConnect(h hstate) bool {
 	roots, err := types.LoadRootCertificates(harness.Ctx, h.st.Clone())
-	c, cerr := types.LoadNodeCredentials(harness.Ctx, h.nd.Clone(), nodeenrollment.CurrentId)
+	c, cerr := types.LoadNodeCredentials(harness.Ctx, h.nd.Clone(), nodeenrollment.CurrentId, w.nodeOpt...)
 	if err != nil || cerr != nil {
 		return false
 	}
@@ -371,7 +372,7 @@ func (w *world) recordUsable(h hstate, keyId string) bool {
 func (w *world) applyHist(h hstate, label string, r *engine.Report) (hstate, string, string) {
 	vclock.Freeze(h.now)
 	nh := hstate{st: h.st.Clone(), nd: h.nd.Clone(), now: h.now}
-	c, err := types.LoadNodeCredentials(harness.Ctx, nh.nd.Clone(), nodeenrollment.CurrentId)
+	c, err := types.LoadNodeCredentials(harness.Ctx, nh.nd.Clone(), nodeenrollment.CurrentId, w.nodeOpt...)
 	if err != nil {
 		panic(err)
 	}
@@ -400,7 +401,7 @@ func (w *world) applyHist(h hstate, label string, r *engine.Report) (hstate, str
 		var derr error
 		var conn interface{ Close() error }
 		rs, serr := harness.Serve(harness.ServerConfig{Storage: nh.st}, func(addr string) {
-			cn, e := protocol.Dial(harness.Ctx, nh.nd, addr)
+			cn, e := protocol.Dial(harness.Ctx, nh.nd, addr, w.nodeOpt...)
 			derr = e
 			if cn != nil {
 				conn = cn
@@ -412,7 +413,7 @@ func (w *world) applyHist(h hstate, label string, r *engine.Report) (hstate, str
 			r.InfraError(serr.Error())
 			return h, "", "skip"
 		}
-		after, _ := types.LoadNodeCredentials(harness.Ctx, nh.nd.Clone(), nodeenrollment.CurrentId)
+		after, _ := types.LoadNodeCredentials(harness.Ctx, nh.nd.Clone(), nodeenrollment.CurrentId, w.nodeOpt...)
 		desc := fmt.Sprintf("dial at now=T0+%v in state {%s}", h.now.Sub(harness.T0), w.hKey(h))
 		// a server whose operator let both roots expire cannot complete any
 		// handshake, not even the fetch: such states are outside the clauses
@@ -471,7 +472,7 @@ func (w *world) initialHist() hstate {
 	if _, err := rotation.RotateRootCertificates(harness.Ctx, h.st, ropts()...); err != nil {
 		panic(err)
 	}
-	if err := harness.NodeCreds(harness.NewCertKey("KH", w.seed), harness.NewEncKey("EH", w.seed), harness.Bytes("nh", 32)).Store(harness.Ctx, h.nd); err != nil {
+	if err := harness.NodeCreds(harness.NewCertKey("KH", w.seed), harness.NewEncKey("EH", w.seed), harness.Bytes("nh", 32)).Store(harness.Ctx, h.nd, w.nodeOpt...); err != nil {
 		panic(err)
 	}
 	return h
@@ -509,7 +510,7 @@ func (w *world) runHistories(c *engine.Ctx, r *engine.Report) {
 }
 
 func run(c *engine.Ctx, r *engine.Report) {
-	r.Need("rogue:rejected", "rogue:accepted-trusted-root", "honest:connected", "honest:unix", "client-configs:one-per-chain", "history:not-authorized", "history:fetched-and-connected", "history:connected")
+	r.Need("rogue:rejected", "rogue:accepted-trusted-root", "honest:connected", "honest:unix", "client-configs:one-per-chain", "history:with-node-storage-wrapper", "history:not-authorized", "history:fetched-and-connected", "history:connected")
 	w := newWorld(c.Seed)
 	i := 0
 	for _, kind := range rogueKinds {
@@ -552,9 +553,18 @@ func run(c *engine.Ctx, r *engine.Report) {
 			r.Nontrivial(1)
 		}
 	}
+	// histories: once with a plain node store, once with the node's credentials under a storage wrapper
 	if c.Shard == c.Shards-1 {
 		w.runHistories(c, r)
 		r.Nontrivial(r.States)
+	}
+	if c.Shard == 0 || c.Shards == 1 {
+		before := r.States
+		w.nodeOpt = []nodeenrollment.Option{nodeenrollment.WithStorageWrapper(harness.Wrapper("node-history", w.seed))}
+		w.runHistories(c, r)
+		w.nodeOpt = nil
+		r.Nontrivial(r.States - before)
+		r.Branch("history:with-node-storage-wrapper")
 	}
 }
 
@@ -597,7 +607,7 @@ func init() {
 	engine.Register(&engine.CheckDef{
 		ID:    "C07",
 		Level: "exploration",
-		Rule: "real protocol.Dial of a registered node against 9 hand-built server constructions (foreign roots; stale certificate minted for another nonce; minted without nonce; another node's client certificate; self-signed with the right nonce; chained to a trusted root with a wrong EKU / an expired leaf; right chain but certificate preference ignored / honoured), 16 honest configurations (storage wrapper x extra ALPN x client state x tcp/unix) against the real listener, the client configurations built for client state x 0..6 extra protocols (one per valid chain, each naming its own chain), and a BFS (quick depth 8, thorough 14) over {authorize, dial, advance 1/4 lifetime, rotate roots} in virtual time for a node that starts unregistered; " +
+		Rule: "real protocol.Dial of a registered node against 9 hand-built server constructions (foreign roots; stale certificate minted for another nonce; minted without nonce; another node's client certificate; self-signed with the right nonce; chained to a trusted root with a wrong EKU / an expired leaf; right chain but certificate preference ignored / honoured), 16 honest configurations (storage wrapper x extra ALPN x client state x tcp/unix) against the real listener, the client configurations built for client state x 0..6 extra protocols (one per valid chain, each naming its own chain), and a BFS (quick depth 8, thorough 14) over {authorize, dial, advance 1/4 lifetime, rotate roots} in virtual time for a node that starts unregistered, with and without a storage wrapper on the node's side; " +
 			"distinct_nontrivial = rogue kinds + honest configurations judged + canonical history states",
 		Assumptions: []string{"the two constructions that need a trusted root's private key are built with the server's own key (a real rogue could not)", "in histories a dial must succeed whenever the node holds a chain strictly inside its validity under a root the server still holds and that is valid; ties are not judged"},
 		Shards:      func(c *engine.Ctx) int { return 4 },
